@@ -113,6 +113,13 @@ pub enum Op {
     /// size limit of level 1 in bytes (deeper levels 10x each) for this history: makes size-triggered
     /// compactions of deeper levels (compaction pointers, round-robin picking) happen with small data
     LevelLimit(u64),
+    /// order in which the filesystem lists directories (0 sorted, 1 reversed, 2 rotated) - the trait
+    /// promises none
+    ListOrder(u8),
+    /// foreign entries inside the database directory (a sub-directory sorting before MANIFEST-*, a
+    /// file with an unparsable name in the main and in the data folder): they must be left alone and
+    /// must not disturb the deletion pass
+    Foreign,
     /// `n` fresh iterators, each seeks to the key and reads one entry (every new iterator samples
     /// its first read: read-sample charges and the compactions they trigger)
     SeekN(Vec<u8>, u32),
@@ -173,6 +180,8 @@ impl Op {
             Op::GetN(k, n) => format!("M:{}:{n}", hex(k)),
             Op::SeekN(k, n) => format!("J:{}:{n}", hex(k)),
             Op::LevelLimit(n) => format!("L:{n}"),
+            Op::ListOrder(n) => format!("Y:{n}"),
+            Op::Foreign => "W".to_string(),
             Op::IterOpen(i) => format!("O:{i}"),
             Op::IterClose(i) => format!("Q:{i}"),
         }
@@ -211,6 +220,8 @@ impl Op {
             "M" => Op::GetN(unhex(p.get(1)?)?, p.get(2)?.parse().ok()?),
             "J" => Op::SeekN(unhex(p.get(1)?)?, p.get(2)?.parse().ok()?),
             "L" => Op::LevelLimit(p.get(1)?.parse().ok()?),
+            "Y" => Op::ListOrder(p.get(1)?.parse().ok()?),
+            "W" => Op::Foreign,
             "O" => Op::IterOpen(p.get(1)?.parse().ok()?),
             "Q" => Op::IterClose(p.get(1)?.parse().ok()?),
             _ => return None,
@@ -753,6 +764,7 @@ pub fn run_history(h: &History, checks: &Checks, fs: &SimFs) -> RunOut {
     let mut oracle: Oracle = BTreeMap::new();
     let mut snaps: BTreeMap<u32, (Snapshot, Oracle)> = BTreeMap::new();
     let mut snap_seqs: BTreeMap<u32, u64> = BTreeMap::new();
+    let mut foreign = false;
     LIVE_SNAPS.with(|l| *l.borrow_mut() = Default::default());
     let mut iters: BTreeMap<u32, (Box<dyn RainDbIterator<Key = Vec<u8>, Error = raindb::RainDBError>>, Oracle)> = BTreeMap::new();
     let mut cfg = h.cfg.clone();
@@ -895,6 +907,15 @@ pub fn run_history(h: &History, checks: &Checks, fs: &SimFs) -> RunOut {
                 }
             }
             Op::LevelLimit(n) => raindb::verif::set_level_one_max_bytes(*n),
+            Op::ListOrder(n) => fs.set_list_order(*n),
+            Op::Foreign => {
+                use raindb::fs::FileSystem;
+                let _ = fs.create_dir_all(std::path::Path::new("/db/ARCHIVE"));
+                fs.write_file_raw(std::path::Path::new("/db/ARCHIVE/old.txt"), b"keep me".to_vec());
+                fs.write_file_raw(std::path::Path::new("/db/0notes.txt"), b"keep me too".to_vec());
+                fs.write_file_raw(std::path::Path::new("/db/data/README"), b"not a table".to_vec());
+                foreign = true;
+            }
             Op::SeekN(k, n) => {
                 let want = oracle.range(k.clone()..).next().map(|(a, b)| (a.clone(), b.clone()));
                 for _ in 0..*n {
@@ -1240,6 +1261,13 @@ pub fn run_history(h: &History, checks: &Checks, fs: &SimFs) -> RunOut {
         }
     }
     iters.clear();
+    if foreign {
+        for p in ["/db/ARCHIVE/old.txt", "/db/0notes.txt", "/db/data/README"] {
+            if fs.read_file(std::path::Path::new(p)).is_none() {
+                obs.push(Obs { sig: "c11:foreign-file-removed".into(), what: format!("{p}, a file the database does not own, was removed from its directory"), at: h.ops.len() });
+            }
+        }
+    }
     if let Some(old) = db.take() {
         let dropped = std::panic::catch_unwind(std::panic::AssertUnwindSafe(move || drop(old)));
         if dropped.is_err() {
